@@ -754,3 +754,94 @@ package client
 //@   ensures encErr == nil && !rfail(r0) ==> decErr == nil
 //@   ensures encErr == nil && decErr == nil ==> !desync(r0) && rcount(r0) - old(rcount(r0)) == wcount(w0) - old(wcount(w0))
 //@   ensures encErr == nil && decErr == nil ==> y.ProposalID == x.ProposalID && y.Reason == x.Reason
+
+// Length-prefixed lists (virtual channel proposals): the length, then one token per element.
+//@ pred trueIDs(x channelIDsWithLen) = true
+//@ pred idsEq(y channelIDsWithLen, x channelIDsWithLen) = len(y) == len(x) && forall i int :: 0 <= i && i < len(x) ==> y[i] == x[i]
+//@ pred idsTokens(w io.Writer, p int, x channelIDsWithLen, n int) = forall m int :: p + 1 <= m && m < p + 1 + n ==>
+//@   wtokKind(w, m) == tokkind("arr32") && wtokVal(w, m) == x[m - (p + 1)]
+//@ codec channelIDsWithLen wf trueIDs eq idsEq by verifRoundTripChannelIDs
+//@ func verifRoundTripChannelIDs
+//@   tokenmodel
+//@   requires w0 != nil && r0 != nil && trueIDs(x)
+//@   modifies *
+//@   inlines (channelIDsWithLen).Encode, (*channelIDsWithLen).Decode
+//@   ensures encErr == nil && !rfail(r0) ==> decErr == nil
+//@   ensures encErr == nil && decErr == nil ==> !desync(r0) && rcount(r0) - old(rcount(r0)) == wcount(w0) - old(wcount(w0))
+//@   ensures encErr == nil && decErr == nil ==> idsEq(y, x)
+//@   loop (channelIDsWithLen).Encode.1
+//@     invariant wcount(w) == old(wcount(w)) + 1 + $i && wtokKind(w, old(wcount(w))) == tokkind("uint16") && wtokVal(w, old(wcount(w))) == len(a) && idsTokens(w, old(wcount(w)), a, $i)
+//@   loop (*channelIDsWithLen).Decode.1
+//@     modifies fresh, ghost("rcount"), ghost("desync"), ghost("rfail")
+//@     invariant err == nil && !desync(r) && rcount(r) == old(rcount(r0)) + 1 + $i && len(*a) == len(x) && fresh(arr(*a))
+//@     invariant forall k int :: 0 <= k && k < $i ==> (*a)[k] == x[k]
+
+//@ pred trueIdx(x indexMapWithLen) = true
+//@ pred idxEq(y indexMapWithLen, x indexMapWithLen) = len(y) == len(x) && forall i int :: 0 <= i && i < len(x) ==> y[i] == x[i]
+//@ pred idxTokens(w io.Writer, p int, x indexMapWithLen, n int) = forall m int :: p + 1 <= m && m < p + 1 + n ==>
+//@   wtokKind(w, m) == tokkind("uint16") && wtokVal(w, m) == x[m - (p + 1)]
+//@ codec indexMapWithLen wf trueIdx eq idxEq by verifRoundTripIndexMap
+//@ func verifRoundTripIndexMap
+//@   tokenmodel
+//@   requires w0 != nil && r0 != nil && trueIdx(x)
+//@   modifies *
+//@   inlines (indexMapWithLen).Encode, (*indexMapWithLen).Decode
+//@   ensures encErr == nil && !rfail(r0) ==> decErr == nil
+//@   ensures encErr == nil && decErr == nil ==> !desync(r0) && rcount(r0) - old(rcount(r0)) == wcount(w0) - old(wcount(w0))
+//@   ensures encErr == nil && decErr == nil ==> idxEq(y, x)
+//@   loop (indexMapWithLen).Encode.1
+//@     invariant wcount(w) == old(wcount(w)) + 1 + $i && wtokKind(w, old(wcount(w))) == tokkind("uint16") && wtokVal(w, old(wcount(w))) == len(a) && idxTokens(w, old(wcount(w)), a, $i)
+//@   loop (*indexMapWithLen).Decode.1
+//@     modifies fresh, ghost("rcount"), ghost("desync"), ghost("rfail")
+//@     invariant err == nil && !desync(r) && rcount(r) == old(rcount(r0)) + 1 + $i && len(*a) == len(x) && fresh(arr(*a))
+//@     invariant forall k int :: 0 <= k && k < $i ==> (*a)[k] == x[k]
+
+//@ pred trueIdxs(x indexMapsWithLen) = true
+//@ pred idxsEq(y indexMapsWithLen, x indexMapsWithLen) = len(y) == len(x) && forall i int :: 0 <= i && i < len(x) ==> idxEq(y[i], x[i])
+//@ pred idxsTokens(w io.Writer, p int, x indexMapsWithLen, n int) = forall m int :: p + 1 <= m && m < p + 1 + n ==>
+//@   wtokKind(w, m) == tokkind("sum:client.indexMapWithLen") && wtokVal(w, m) == sumOf(indexMapWithLen(x[m - (p + 1)]))
+//@ codec indexMapsWithLen wf trueIdxs eq idxsEq by verifRoundTripIndexMaps
+//@ func verifRoundTripIndexMaps
+//@   tokenmodel
+//@   requires w0 != nil && r0 != nil && trueIdxs(x)
+//@   modifies *
+//@   inlines (indexMapsWithLen).Encode, (*indexMapsWithLen).Decode
+//@   ensures encErr == nil && !rfail(r0) ==> decErr == nil
+//@   ensures encErr == nil && decErr == nil ==> !desync(r0) && rcount(r0) - old(rcount(r0)) == wcount(w0) - old(wcount(w0))
+//@   ensures encErr == nil && decErr == nil ==> idxsEq(y, x)
+//@   loop (indexMapsWithLen).Encode.1
+//@     invariant wcount(w) == old(wcount(w)) + 1 + $i && wtokKind(w, old(wcount(w))) == tokkind("uint16") && wtokVal(w, old(wcount(w))) == len(a) && idxsTokens(w, old(wcount(w)), a, $i)
+//@   loop (*indexMapsWithLen).Decode.1
+//@     modifies fresh, ghost("rcount"), ghost("desync"), ghost("rfail")
+//@     invariant err == nil && !desync(r) && rcount(r) == old(rcount(r0)) + 1 + $i && len(*a) == len(x) && fresh(arr(*a))
+//@     invariant forall k int :: 0 <= k && k < $i ==> idxEq((*a)[k], x[k])
+
+//@ pred virtPropWFc(x VirtualChannelProposalMsg) = baseWFc(x.BaseChannelProposal) && addrMapWF(x.Proposer) && wAddrArrWF(x.Peers)
+//@ pred virtPropEqc(y VirtualChannelProposalMsg, x VirtualChannelProposalMsg) = baseEqc(y.BaseChannelProposal, x.BaseChannelProposal) &&
+//@   addrMapEq(y.Proposer, x.Proposer) && wAddrArrEq(y.Peers, x.Peers) && idsEq(y.Parents, x.Parents) && idxsEq(y.IndexMaps, x.IndexMaps)
+//@ func verifRoundTripVirtualChannelProposalMsg
+//@   tokenmodel
+//@   requires w0 != nil && r0 != nil && virtPropWFc(x)
+//@   modifies *
+//@   inlines (VirtualChannelProposalMsg).Encode, (*VirtualChannelProposalMsg).Decode
+//@   ensures encErr == nil && !rfail(r0) && !rejected(r0) ==> decErr == nil
+//@   ensures encErr == nil && decErr == nil ==> !desync(r0) && rcount(r0) - old(rcount(r0)) == wcount(w0) - old(wcount(w0))
+//@   ensures encErr == nil && decErr == nil ==> virtPropEqc(y, x)
+
+//@ func verifRoundTripVirtualChannelProposalAccMsg
+//@   tokenmodel
+//@   requires w0 != nil && r0 != nil && addrMapWF(x.Responder)
+//@   modifies *
+//@   inlines (VirtualChannelProposalAccMsg).Encode, (*VirtualChannelProposalAccMsg).Decode, (BaseChannelProposalAcc).Encode, (*BaseChannelProposalAcc).Decode
+//@   ensures encErr == nil && !rfail(r0) && !rejected(r0) ==> decErr == nil
+//@   ensures encErr == nil && decErr == nil ==> !desync(r0) && rcount(r0) - old(rcount(r0)) == wcount(w0) - old(wcount(w0))
+//@   ensures encErr == nil && decErr == nil ==> y.ProposalID == x.ProposalID && y.NonceShare == x.NonceShare && addrMapEq(y.Responder, x.Responder)
+
+//@ func verifRoundTripChannelUpdateRejMsg
+//@   tokenmodel
+//@   requires w0 != nil && r0 != nil
+//@   modifies *
+//@   inlines (ChannelUpdateRejMsg).Encode, (*ChannelUpdateRejMsg).Decode
+//@   ensures encErr == nil && !rfail(r0) ==> decErr == nil
+//@   ensures encErr == nil && decErr == nil ==> !desync(r0) && rcount(r0) - old(rcount(r0)) == wcount(w0) - old(wcount(w0))
+//@   ensures encErr == nil && decErr == nil ==> y.ChannelID == x.ChannelID && y.Version == x.Version && y.Reason == x.Reason
